@@ -24,6 +24,8 @@ const (
 
 var ruxSites = siteNames[:12]
 
+var siteCacheHit, siteCacheStore = siteIndex("cache.hit"), siteIndex("cache.store")
+
 func siteIndex(name string) int {
 	for i, s := range siteNames {
 		if s == name {
@@ -35,14 +37,14 @@ func siteIndex(name string) int {
 
 // ruxYield is installed as rux.VerifHooks.Yield.
 func ruxYield(site string) {
-	if shCur() < 0 {
-		return
-	}
 	i := siteIndex(site)
 	if i < 0 {
 		return // unknown site (a change under test added one): never scheduled on
 	}
 	probeSite(i)
+	if shCur() < 0 {
+		return
+	}
 	taskYield(i)
 }
 
